@@ -79,7 +79,8 @@ def main():
                 enums = {}
                 for n, o in vars(mod).items():
                     if isinstance(o, type) and issubclass(o, enum.Enum) and o.__module__.startswith(pkg):
-                        enums[n] = {"members": [[k, enc(m.value)] for k, m in o.__members__.items()], "canonical": [m.name for m in o], "bases": [b.__name__ for b in o.__mro__[1:3]]}
+                        enums[n] = {"members": [[k, enc(m.value)] for k, m in o.__members__.items()], "canonical": [m.name for m in o], "bases": [b.__name__ for b in o.__mro__[1:3]],
+                                    "texts": [[m.name, str(m), format(m), f"{m}", "{}".format(m)] for m in o]}
                 lits = {}
                 for n, o in vars(mod).items():
                     if n.startswith("check_") and callable(o):
@@ -117,6 +118,35 @@ def main():
                         r["to_dict_error"] = type(e).__name__
                     probes.append(r)
                 res["probes"] = probes
+            elif job["what"] == "call":
+                # call the endpoint once per enum member (or Literal value) of parameter job["param"] behind a MockTransport and report what is SENT
+                import httpx
+                from urllib.parse import unquote
+                fn = getattr(mod, "sync_detailed")
+                ann = inspect.signature(fn).parameters[job["param"]].annotation
+                if isinstance(ann, type) and issubclass(ann, enum.Enum):
+                    args = [(m.name, m) for m in ann]
+                else:
+                    args = [(repr(a), a) for a in typing.get_args(ann)]
+                client_mod = importlib.import_module(pkg + ".client")
+                calls = []
+                for nm, a in args:
+                    seen = {}
+
+                    def handler(request, seen=seen):
+                        seen["raw_path"] = request.url.raw_path.decode("ascii", "replace")
+                        seen["query"] = [[k, v] for k, v in request.url.params.multi_items()]
+                        seen["headers"] = {k: v for k, v in request.headers.items()}
+                        return httpx.Response(200, json={})
+                    rec = {"name": nm, "value": enc(a.value if isinstance(a, enum.Enum) else a), "str": str(a), "format": format(a), "fstr": f"{a}"}
+                    try:
+                        cl = client_mod.Client(base_url="http://t.example", httpx_args={"transport": httpx.MockTransport(handler)})
+                        fn(client=cl, **{job["param"]: a})
+                        rec["sent"] = {"path": unquote(seen.get("raw_path", "").split("?")[0]), "query": seen.get("query"), "headers": seen.get("headers")}
+                    except BaseException as e:  # noqa
+                        rec["error"] = type(e).__name__ + ": " + str(e)[:200]
+                    calls.append(rec)
+                res["calls"] = calls
             elif job["what"] == "endpoint":
                 enums = {}
                 for n, o in vars(mod).items():
